@@ -18,7 +18,8 @@ RULE = ("(a) gate: passes placed at every boundary of ALL 172 listed intervals (
         "the Lean model (exact variance > 4) vs explicit NaN-ignoring 3x3 standard deviation, guard band |var - 4| < 1e-6; "
         "(c) pipeline: synthetic KLM (NOAA-16) and POD (NOAA-14) files inside / straddling / outside an interval with noisy "
         "counts: get_calibrated_channels with the gate vs the same reader with the gate forced off - blanked pixels = "
-        "criterion pixels in ALL channels, everything else bit-identical. A case = one (pass, spacecraft) gate query, one "
+        "criterion pixels in ALL channels, everything else bit-identical; (d) the masking step on scenes of 2000..14000 lines "
+        "with an isolated noisy pixel on every second line vs the criterion evaluated on the whole scene. A case = one (pass, spacecraft) gate query, one "
         "image, or one file; distinct by those keys")
 TRUSTED_EXTRA = ["bottleneck.nanstd is an external kernel; its agreement with the exact variance is checked on every image",
                  "a zero channel-5 value (division by zero in the relative difference) is outside the generator"]
@@ -234,10 +235,77 @@ def pipeline_cases(ctx):
             fam, where, "none" if frac == 0 else ("some" if frac < 0.5 else "most")))
 
 
+def std3_fast(img):
+    """the same 3x3 NaN-ignoring population standard deviation, vectorised (for long scenes)"""
+    n, m = img.shape
+    pad = np.full((n + 2, m + 2), np.nan)
+    pad[1:-1, 1:-1] = img
+    st = np.stack([pad[a:a + n, b:b + m] for a in range(3) for b in range(3)], axis=-1)
+    with warnings.catch_warnings():
+        warnings.simplefilter("ignore")
+        out = np.nanstd(st, axis=-1)
+    return np.where(np.isnan(out), 0.0, out)
+
+
+def long_scene_cases(ctx):
+    """the masking step itself (`mask_tsm_pixels`) on scenes of several thousand lines - a full orbit has ~13000 - with an
+    isolated noisy pixel on every second line: blanked pixels = criterion pixels of the WHOLE scene, in all channels"""
+    import xarray as xr
+    from pygac.gac_klm import GACKLMReader
+    from pygac.gac_pod import GACPODReader
+    rng = ctx.rng
+    nprng = np.random.default_rng(rng.randrange(1 << 30))
+    plan = [(GACPODReader, 5, (0, 1, 3, 4), 4100), (GACKLMReader, 6, (0, 1, 4, 5), 8200), (GACPODReader, 5, (0, 1, 3, 4), rng.randint(2000, 14000))]
+    if ctx.thorough:
+        plan += [(GACKLMReader, 6, (0, 1, 4, 5), n) for n in (1025, 2049, 4097, 13000)] + [(GACPODReader, 5, (0, 1, 3, 4), 16385)]
+    for cls, nch, sel, n in plan:
+        m = 7
+        arr = np.empty((n, m, nch))
+        base = nprng.integers(10, 60, size=(n, m)).astype(float)
+        arr[:, :, sel[0]] = base
+        arr[:, :, sel[1]] = base
+        arr[:, :, sel[2]] = 260.0
+        arr[:, :, sel[3]] = 258.0
+        for c in range(nch):
+            if c not in sel:
+                arr[:, :, c] = nprng.integers(1, 300, size=(n, m))
+        for i in range(0, n, 2):
+            j = rng.randrange(m)
+            arr[i, j, sel[0]] += 50
+            arr[i, j, sel[2]] += 60
+        before = arr.copy()
+        ds = xr.Dataset({"channels": (("scan_line_index", "columns", "channel_name"), arr)})
+        r = cls(tle_dir="/nonexistent", tle_name="x")
+        payload = {"stream": "long-scene", "reader": cls.__name__, "lines": n}
+        try:
+            r.mask_tsm_pixels(ds)
+        except Exception as e:
+            ctx.violation("mask_tsm_pixels raised %r on a %d-line scene" % (e, n), payload, cls="long-raises")
+            continue
+        after = ds["channels"].values
+        s12 = std3_fast(np.abs(before[:, :, sel[0]] - before[:, :, sel[1]]))
+        s45 = std3_fast(100.0 * (before[:, :, sel[2]] - before[:, :, sel[3]]) / before[:, :, sel[3]])
+        want = (s12 > 2.0) & (s45 > 2.0)
+        sure = (np.abs(s12 ** 2 - 4) > 1e-6) & (np.abs(s45 ** 2 - 4) > 1e-6)
+        blank = np.isnan(after).all(axis=2)
+        bad = np.argwhere((blank != want) & sure)
+        if len(bad):
+            i, j = (int(x) for x in bad[0])
+            ctx.violation("%s, scene of %d lines: pixel (line %d, column %d) is %s although its two 3x3 standard deviations are "
+                          "%.2f and %.2f (%d pixels wrong, on lines %s..)" % (cls.__name__, n, i, j, "blanked" if blank[i, j] else "kept",
+                                                                               s12[i, j], s45[i, j], len(bad), sorted(set(bad[:, 0].tolist()))[:4]),
+                          payload, cls="long-scene")
+        keep = ~blank
+        if not np.array_equal(after[keep], before[keep]):
+            ctx.violation("%s, scene of %d lines: a pixel outside the criterion was altered" % (cls.__name__, n), payload, cls="long-altered")
+        ctx.case(("long", cls.__name__, n), nontrivial=True, branch="long-scene/%s" % ("pod" if nch == 5 else "klm"))
+
+
 def run(ctx):
     gate_cases(ctx)
     pixel_cases(ctx)
     pipeline_cases(ctx)
+    long_scene_cases(ctx)
     ctx.sample({"intervals": {f: {k: len(v) for k, v in t.items()} for f, t in tables().items()}})
 
 
